@@ -206,6 +206,9 @@ func Main(t *testing.T, id string, gen0 func(thorough bool) []Scenario) {
 		replay(t, c, scs)
 		return
 	}
+	if len(scs) == 0 {
+		c.Internal("no scenario to run (VERIF_ONLY=%q is a substring filter on scenario names)", os.Getenv("VERIF_ONLY"))
+	}
 	nw := runtime.NumCPU()
 	if nw > len(scs) {
 		nw = len(scs)
